@@ -50,11 +50,43 @@ class RefModel:
         self.L = len(self.leaves)
         self.test_counts = np.zeros(self.L)
 
+    public = False
+
     def counts_of(self, X):
         c = np.zeros(self.L)
         for row in np.asarray(X, dtype=float):
             c[K.route(self.root, row)[0]] += 1
         return c
+
+    @staticmethod
+    def _public_leaves(det):
+        df = det.to_plotly_dataframe()
+        parents = set(int(v) for v in df["parent_idx"].dropna().tolist())
+        leaf = [int(i) not in parents for i in df["idx"].tolist()]
+        return df, leaf
+
+    def reconcile(self, det):
+        """Compare the own reference tree with the detector's public description of its tree (node depths and reference counts in
+        pre-order).  Where a tree stops splitting is not fixed by any property, so a different shape is not a violation: the monitor
+        then takes the leaf counts from the public frame (the partitioner's counting is C08's subject).  Returns an error string only
+        if the public tree does not hold the reference sample."""
+        df, leaf = self._public_leaves(det)
+        own = K.nodes_preorder(self.root)
+        if df["depth"].tolist() == [nd["depth"] for nd in own] and df["cell_count"].tolist() == [nd["count"] for nd in own]:
+            return None
+        if int(df["cell_count"].iloc[0]) != len(self.ref) or sum(c for c, l in zip(df["cell_count"].tolist(), leaf) if l) != len(self.ref):
+            return "the detector's tree holds %d reference points in its root / %d in its leaves; the reference has %d rows" % (
+                int(df["cell_count"].iloc[0]), sum(c for c, l in zip(df["cell_count"].tolist(), leaf) if l), len(self.ref))
+        self.public = True
+        self.ref_counts = [int(c) for c, l in zip(df["cell_count"].tolist(), leaf) if l]
+        self.ref_dist = distn(self.ref_counts)
+        self.L = len(self.ref_counts)
+        self.test_counts = np.zeros(self.L)
+        return None
+
+    def public_test_counts(self, det):
+        df, leaf = self._public_leaves(det)
+        return np.array([int(c + dd) for c, dd, l in zip(df["cell_count"].tolist(), df["count_diff"].tolist(), leaf) if l], dtype=float)
 
     def check_bootstrap(self, events, B, sample_size):
         """returns (list of bootstrap divergences or None, error message or None).  Accepted drawing schemes: B draws of 2n cells,
@@ -175,6 +207,12 @@ def run_batch(case, ctx):
                 built = X  # first update without a reference installs it
             if built is not None:
                 model = RefModel(built, kw["count_ubound"], kw["cutpoint_proportion_lbound"])
+                rerr = model.reconcile(det)
+                if rerr:
+                    ctx.violation("C09/batch/reference_tree", "call %d (%s): %s" % (i, op, rerr), **base)
+                    return
+                if model.public:
+                    ctx.count("reference_trees_with_other_shape_than_own_builder")
                 dists, err = model.check_bootstrap(ev, kw["bootstrap_samples"], len(built))
                 if err and err.startswith("SCHEME"):
                     ctx.mark_inconclusive(err)
@@ -193,7 +231,10 @@ def run_batch(case, ctx):
                 ctx.violation("C09/batch/unexpected_rebuild", "call %d (%s) drew a bootstrap although the reference must be kept" % (i, op), **base)
                 return
             # decision for test batch X against the current reference
-            tc = model.counts_of(X)
+            tc = model.public_test_counts(det) if model.public else model.counts_of(X)
+            if model.public and int(tc.sum()) != len(X):
+                ctx.violation("C09/batch/test_counts", "call %d: the public leaf counts of the test batch add up to %d, the batch has %d rows" % (i, int(tc.sum()), len(X)), **base)
+                return
             div = float(scipy.stats.entropy(model.ref_dist, distn(tc)))
             cmp_.begin()
             exp = "drift" if cmp_.gt(div, model.crit) else None
@@ -208,7 +249,7 @@ def run_batch(case, ctx):
                                   "call %d: drift_state %r; divergence of the batch over the reference leaves %.12g, critical value from the logged "
                                   "draws %.12g (alpha %s, %d leaves) => expected %r" % (i, got, div, model.crit, kw["alpha"], model.L, exp), **base)
                     return
-            if i % 3 == 0:
+            if i % 3 == 0 and not model.public:
                 # the detector-level plot frame must show the reference and test counts of every node of the reference tree
                 nodes = K.nodes_preorder(model.root)
                 rc, tcn = K.fill_counts(model.root, model.ref), K.fill_counts(model.root, X)
@@ -335,6 +376,12 @@ def run_stream(case, ctx):
                 epoch.append(x)
                 if len(epoch) == w:
                     model = RefModel(np.array(epoch), kw["count_ubound"], kw["cutpoint_proportion_lbound"])
+                    rerr = model.reconcile(det)
+                    if rerr:
+                        ctx.violation("C09/stream/reference_tree", "sample %d completes the reference window: %s" % (i, rerr), **base)
+                        return
+                    if model.public:
+                        ctx.count("reference_trees_with_other_shape_than_own_builder")
                     dists, err = model.check_bootstrap(ev, kw["bootstrap_samples"], w)
                     if err and err.startswith("SCHEME"):
                         ctx.mark_inconclusive(err)
@@ -354,8 +401,15 @@ def run_stream(case, ctx):
             if any(e[0] == "choice" for e in ev):
                 ctx.violation("C09/stream/unexpected_rebuild", "sample %d drew a bootstrap although the reference window is in use" % i, **base)
                 return
-            model.test_counts[K.route(model.root, x)[0]] += 1
             ntest += 1
+            if model.public:
+                model.test_counts = model.public_test_counts(det)
+                if int(model.test_counts.sum()) != ntest:
+                    ctx.violation("C09/stream/test_counts", "sample %d: the public leaf counts of the accumulated test samples add up to %d, %d samples arrived" % (
+                        i, int(model.test_counts.sum()), ntest), **base)
+                    return
+            else:
+                model.test_counts[K.route(model.root, x)[0]] += 1
             if ntest < w:
                 if got is not None:
                     ctx.violation("C09/stream/silent_period", "sample %d (test sample %d of the epoch, window %d): drift_state %r" % (i, ntest, w, got), **base)
